@@ -173,4 +173,36 @@ def opResize (s : S) (ino : Ino) (sz : Nat) : S × Ino :=
     (s2, { blks := blks2, size := sz, shrink := newSz })
   else (s1, { blks := blks1, size := sz, shrink := newSz })
 
+/-! ### the budget of a transaction: `Shrink` may stop early -/
+
+/-- the loop of `Shrink` with room for at most `budget` rounds in the current transaction
+    (`shrinkFits(op, 5)` fails after that): returns the ShrinkSize it reached -/
+def shrinkToB (s : S) (blks : List Nat) (target : Nat) : Nat → Nat → S × List Nat × Nat
+  | 0, shrink => (s, blks, shrink)
+  | _, 0 => (s, blks, 0)
+  | budget + 1, shrink + 1 =>
+    if target < shrink + 1 then
+      let (s', blks') := shrinkStep s blks shrink
+      shrinkToB s' blks' target budget shrink
+    else (s, blks, shrink + 1)
+
+/-- `Inode.Resize(sz)` as one request sees it: `fits` is the estimate `shrinkFits(oldsz - newSz)`,
+    `budget` the number of rounds the transaction really has room for.  Returns the flag that
+    tells the caller to start the background shrinker.  (After fix b79792e: the flag is what
+    `Shrink` reports; before, it was `false` whenever `fits` held.) -/
+def opResizeB (s : S) (ino : Ino) (sz : Nat) (fits : Bool) (budget : Nat) : S × Ino × Bool :=
+  let oldsz := if ino.shrink > roundUp ino.size then ino.shrink else roundUp ino.size
+  let (s1, blks1) :=
+    if sz < ino.size ∧ sz % BlockSize ≠ 0 then
+      let (s', blks', _, _) := bmap s ino.blks (sz / BlockSize)
+      (s', blks')
+    else (s, ino.blks)
+  let newSz := roundUp sz
+  if newSz < oldsz then
+    if fits then
+      let (s2, blks2, reached) := shrinkToB s1 blks1 newSz budget oldsz
+      (s2, { blks := blks2, size := sz, shrink := reached }, decide (reached > newSz))
+    else (s1, { blks := blks1, size := sz, shrink := oldsz }, true)
+  else (s1, { blks := blks1, size := sz, shrink := newSz }, false)
+
 end GoNfsd.Model.BlockMap
